@@ -222,15 +222,9 @@ func rC10Descent(w *World, r *Report) {
 		return
 	}
 	moves := 0
-	for i, e := range m.cursorPhi.Edges {
-		if e == ssa.Value(m.cursorPhi) {
-			continue
-		}
-		if p, ok := e.(*ssa.Parameter); ok && p.Parent() == m.fn {
-			continue
-		}
+	for _, mv := range m.cursorMoves() {
+		e, pred := mv.val, mv.pred
 		moves++
-		pred := m.cursorPhi.Block().Preds[i]
 		pos := w.IPos(pred.Instrs[len(pred.Instrs)-1])
 		ru.Check(m.underCommandMatch(pred), "descent/equality", pos, "under key == iterator.Value() with key ranging over the cursor's ChildCommands", "the cursor moves without an exact match of the token against the cursor's command names (prefix match, other table, or unconditional)")
 		// new node = value of the same range entry
@@ -298,7 +292,7 @@ func rC10Descent(w *World, r *Report) {
 	eachInstr(m.fn, func(in ssa.Instruction) {
 		if ret, ok := in.(*ssa.Return); ok && !m.inCompletionOnly(in.Block()) {
 			if isNilConst(ret.Results[2]) {
-				ru.Check(ret.Results[0] == ssa.Value(m.cursorPhi), "parser/returns-cursor", w.IPos(ret), "success return hands back the cursor", "the parser's success return does not return the node reached")
+				ru.Check(m.isCursorValue(ret.Results[0]), "parser/returns-cursor", w.IPos(ret), "success return hands back the cursor", "the parser's success return does not return the node reached")
 			}
 		}
 	})
@@ -366,6 +360,24 @@ func rC10CopyOptions(w *World, r *Report) {
 				}
 			}
 		}
+		// the help command of the level never receives the options (its required ones would gate `prog help`)
+		helpExcluded := false
+		for _, f := range factsAt(mu.Block()) {
+			if f.Op != token.NEQ || f.Y == nil {
+				continue
+			}
+			x, y := f.X, f.Y
+			if _, ok := loadOfFieldNamed(x, "HelpCommandName"); ok {
+				x, y = y, x
+			}
+			if _, ok := loadOfFieldNamed(x, "Name"); !ok {
+				continue
+			}
+			if b, ok := loadOfFieldNamed(y, "HelpCommandName"); ok && b == ssa.Value(fn.Params[0]) {
+				helpExcluded = true
+			}
+		}
+		ru.Check(helpExcluded, "copy/help-command-excluded", w.IPos(mu), "copy guarded by child.Name != parent.HelpCommandName", "the help command inherits the level's options: a missing required option would turn `prog help` into an error instead of the help text")
 		_, isChildTable := loadOfField(mu.Map, fCO)
 		ru.Check(good && isChildTable, "copy/same-record", w.IPos(mu), "child.ChildOptions[k] = v for (k, v) of the parent's table", "children do not receive the parent's own record under the same name (a copy would not see parsed values)")
 	})
@@ -1244,6 +1256,12 @@ func rC12GetEnvBody(w *World, r *Report) {
 				if isRet(in) && (s1[i] || s2[i]) {
 					good, why = false, "for a non-empty value a path returns without Save(value) / SetCalled(name): valid text would be ignored or the option not marked called"
 				}
+			}
+		}
+		// a saved value always marks the option called (whatever the value: restating the default counts as supplied)
+		for _, c := range ksaves {
+			if ok, _ := ig.mustPass(ig.after(c), isSetC, isRet); !ok {
+				good, why = false, "after Save a path returns without SetCalled(name): a variable whose value was stored does not count as supplied (Called / Required)"
 			}
 		}
 		for _, c := range ksaves {
